@@ -69,6 +69,52 @@ impl ContinuityStreamCache {
         self.dir.join(format!("{continuity_id}.jsonl"))
     }
 
+    // Marker that exists while the cache files of a continuity are being appended to or rebuilt.
+    // A marker found at start-up means the process died in between and the caches may be behind
+    // the truth log.
+    fn dirty_marker_path(&self, continuity_id: &str) -> PathBuf {
+        self.dir.join(format!("{continuity_id}.dirty"))
+    }
+
+    fn remove_all_for(&self, continuity_id: &str) {
+        for path in [
+            self.path_for(continuity_id),
+            seq_index_path(&self.dir, continuity_id),
+            message_index_path(&self.dir, continuity_id),
+            self.messages_runs_path_for_v1(continuity_id),
+            self.messages_runs_seq_index_path_v1(continuity_id),
+            self.messages_runs_message_index_path_v1(continuity_id),
+            self.messages_runs_message_ordinal_index_path_v1(continuity_id),
+            self.compaction_checkpoints_path_for_v1(continuity_id),
+            self.compaction_checkpoints_index_path_for_v1(continuity_id),
+            self.dirty_marker_path(continuity_id),
+        ] {
+            let _ = fs::remove_file(path);
+        }
+    }
+
+    /// Start-up reconciliation with the truth log: drop the (rebuildable) caches of a continuity
+    /// whose last cache update was interrupted, or whose sidecar does not end with the last
+    /// continuity frame of the log (`last_truth_frame` = its stream id and seq).
+    pub(crate) fn reconcile_after_restart(&self, last_truth_frame: Option<(String, u64)>) {
+        if let Ok(entries) = fs::read_dir(&self.dir) {
+            for entry in entries.flatten() {
+                let name = entry.file_name();
+                if let Some(continuity_id) = name.to_string_lossy().strip_suffix(".dirty") {
+                    self.remove_all_for(continuity_id);
+                }
+            }
+        }
+
+        if let Some((continuity_id, seq)) = last_truth_frame {
+            if self.path_for(&continuity_id).exists()
+                && !matches!(self.try_read_last_seq(&continuity_id), Ok(Some(last)) if last == seq)
+            {
+                self.remove_all_for(&continuity_id);
+            }
+        }
+    }
+
     // Sidecar containing only continuity_message_appended + continuity_run_ended (cache-only).
     //
     // Purpose: make recent_messages_v1 window reads O(k) even when the truth continuity stream has
@@ -115,6 +161,8 @@ impl ContinuityStreamCache {
         if let Some(parent) = path.parent() {
             let _ = fs::create_dir_all(parent);
         }
+        let dirty_marker = self.dirty_marker_path(continuity_id);
+        let _ = File::create(&dirty_marker);
 
         let Ok(file) = OpenOptions::new().create(true).append(true).open(&path) else {
             return;
@@ -167,6 +215,7 @@ impl ContinuityStreamCache {
 
         // Additional cache: compaction checkpoints only (summary selection).
         self.append_compaction_checkpoints_best_effort_v1(event);
+        let _ = fs::remove_file(dirty_marker);
         #[cfg(feature = "verif")]
         rip_kernel::verif::point_with("cont.cache.exit", || {
             format!("{} {}", continuity_id, event.seq)
@@ -178,6 +227,8 @@ impl ContinuityStreamCache {
         if let Some(parent) = path.parent() {
             let _ = fs::create_dir_all(parent);
         }
+        let dirty_marker = self.dirty_marker_path(continuity_id);
+        let _ = File::create(&dirty_marker);
 
         let Ok(file) = File::create(&path) else {
             return;
@@ -213,6 +264,7 @@ impl ContinuityStreamCache {
         #[cfg(feature = "verif")]
         rip_kernel::verif::point("cache.rebuild.mr", continuity_id);
         self.rebuild_compaction_checkpoints_best_effort_v1(continuity_id, events);
+        let _ = fs::remove_file(dirty_marker);
         #[cfg(feature = "verif")]
         rip_kernel::verif::point("cache.rebuild.done", continuity_id);
     }
